@@ -7,7 +7,7 @@ use std::time::Duration;
 use inkayaku_board::Bitboard;
 use inkayaku_core::fen::Fen;
 use inkayaku_engine_core::Engine;
-use inkayaku_uci::{Go, UciCommand, UciEngine, UciTxCommand};
+use inkayaku_uci::{Go, UciCommand, UciEngine, UciMove, UciTxCommand};
 use inkayaku_uci::command::CommandUciTx;
 
 fn bestmove(rx: &std::sync::mpsc::Receiver<UciTxCommand>) -> Option<String> {
@@ -38,12 +38,15 @@ fn run_movetime(fen: &str, movetime_ms: u64) -> Result<(), String> {
     }
 }
 
-fn run(fen: &str, interrupt_ms: u64) -> Result<(), String> {
+fn run(fen: &str, interrupt_ms: u64) -> Result<(), String> { run_moves(fen, &[], interrupt_ms) }
+
+/// the position is given as FEN + move list (the usual GUI form); the legality reference replays the list
+fn run_moves(fen: &str, moves: &[&str], interrupt_ms: u64) -> Result<(), String> {
     let (tx, rx) = channel();
     let mut engine = Engine::new(Arc::new(CommandUciTx::new(tx)), false);
     engine.accept(UciCommand::UciNewGame);
     let parsed: Fen = fen.parse().unwrap();
-    engine.accept(UciCommand::PositionFrom { fen: parsed, moves: vec![] });
+    engine.accept(UciCommand::PositionFrom { fen: parsed, moves: moves.iter().map(|m| m.parse::<UciMove>().unwrap()).collect() });
     engine.accept(UciCommand::Go { go: Go { infinite: true, ..Go::default() } });
     std::thread::sleep(Duration::from_millis(interrupt_ms));
     engine.accept(UciCommand::Stop);
@@ -51,10 +54,11 @@ fn run(fen: &str, interrupt_ms: u64) -> Result<(), String> {
     engine.accept(UciCommand::Go { go: Go { depth: Some(1), ..Go::default() } });
     let answer = bestmove(&rx);
     let mut board = Bitboard::from_fen_string_unchecked(fen);
+    for m in moves { board.make_uci(m).unwrap(); }
     let legal: Vec<String> = board.generate_legal_moves().iter().map(|m| m.to_uci_string()).collect();
     match answer {
         Some(mv) if legal.contains(&mv) => Ok(()),
-        other => Err(format!("fen={:?} go infinite, stop after {} ms, go depth 1 -> bestmove {:?} which is not legal there", fen, interrupt_ms, other)),
+        other => Err(format!("fen={:?} moves={:?} go infinite, stop after {} ms, go depth 1 -> bestmove {:?} which is not legal there", fen, moves, interrupt_ms, other)),
     }
 }
 
@@ -67,6 +71,17 @@ fn witness_c09_stop_then_go() {
         ("rnbqkbnr/pppppppp/8/8/8/8/PPPPPPPP/RNBQKBNR w KQkq - 0 1", 6000),
     ] {
         if let Err(e) = run(fen, ms) {
+            println!("FAILING-INPUT: {}", e);
+            bad += 1;
+        }
+    }
+    // position given with a move list: black to move after 1.e4; a longer opening line
+    for (fen, moves, ms) in [
+        ("rnbqkbnr/pppppppp/8/8/8/8/PPPPPPPP/RNBQKBNR w KQkq - 0 1", &["e2e4"][..], 1500u64),
+        ("rnbqkbnr/pppppppp/8/8/8/8/PPPPPPPP/RNBQKBNR w KQkq - 0 1", &["d2d4", "g8f6", "c2c4", "e7e6", "b1c3"][..], 1500),
+        ("r3k2r/pppq1ppp/2n2n2/3pp3/3PP3/2N2N2/PPPQ1PPP/R3K2R w KQkq - 0 10", &["e1c1"][..], 1500),
+    ] {
+        if let Err(e) = run_moves(fen, moves, ms) {
             println!("FAILING-INPUT: {}", e);
             bad += 1;
         }
